@@ -1,0 +1,8 @@
+//go:build !verif
+
+package matcher
+
+func verifStep()                          {}
+func verifRepeatIter(n1 int, err error)   {}
+func verifVarEnter(v *Var, left int) bool { return false }
+func verifVarExit(entered bool)           {}
